@@ -71,6 +71,32 @@ fn scan_skip_whitespace() {
 }
 
 #[cfg(kani)]
+fn whitespace_fixed(text: &'static [u8], consumed_expected: usize) {
+  let src = unsafe { std::str::from_utf8_unchecked(text) };
+  let mut lx = WrappedLogosLexer::new(src, ModuleReference::DUMMY);
+  lx.position = Position(3, 7);
+  lx.skip_whitespace();
+  let consumed = text.len() - lx.lexer.remainder().len();
+  assert!(consumed == consumed_expected);
+  assert!(lx.position == advance(Position(3, 7), &text[..consumed]));
+}
+
+// Fixed texts (concrete bytes: seconds for CBMC whatever routines a rewritten scanner uses): line breaks that are
+// not adjacent - a line holding only blanks or tabs between them -, trailing blanks after the last break, no break.
+#[cfg(kani)]
+#[kani::proof]
+#[kani::unwind(40)]
+fn scan_skip_whitespace_fixed_shapes() {
+  whitespace_fixed(b"\n  \n  x", 6);
+  whitespace_fixed(b"  \n\t\n\n y", 7);
+  whitespace_fixed(b"\n \n \n", 5);
+  whitespace_fixed(b"   z", 3);
+  whitespace_fixed(b"\n\nq", 2);
+  whitespace_fixed(b" \n   \n      \n  w", 15);
+  kani::cover!(true);
+}
+
+#[cfg(kani)]
 #[kani::proof]
 #[kani::unwind(9)]
 fn scan_string_literal() {
